@@ -63,6 +63,7 @@ type urrEv struct {
 
 type urrInst struct {
 	*Base
+	pre seqx.Pre
 	prop  string
 	tier  string
 	menu  []urrEv
@@ -226,7 +227,9 @@ func (c *urrInst) prefix() {
 	for _, p := range peers {
 		c.W.Send(p, smf.Assoc(c.NextSeq(p), c.W.PeerIP(p)))
 		c.R.Assoc(c.W.PeerIP(p), p)
-		c.est(p, &Judge{Prop: c.prop})
+		j := &Judge{Prop: c.prop}
+		c.est(p, j)
+		c.pre.Add(j.Viols...)
 	}
 }
 
@@ -501,7 +504,7 @@ func (c *urrInst) Apply(e seqx.Event) seqx.StepResult {
 		c.sess[k] = nil
 		c.othersUntouched(j, "Del", k, others)
 	}
-	return seqx.StepResult{Obs: e.String() + " => " + o.StringL(c.Label), Viols: j.Viols, Tags: j.Tags}
+	return seqx.StepResult{Obs: e.String() + " => " + o.StringL(c.Label), Viols: append(c.pre.Take(), j.Viols...), Tags: j.Tags}
 }
 
 // otherSeq: the reference's next-SEQN expectations and the implementation's dumps of all other sessions
